@@ -78,7 +78,7 @@ def rule_sql(program, ctx):
         "DELETE sites on the events table in DBStorage.pre_save / post_save / process_tags: WHERE is a `&`-conjunction containing "
         "`c.pubkey == bytes.fromhex(event.pubkey)`; or `c.id == <id>` with <id> taken from the rows of a SELECT whose WHERE contains that "
         "conjunct; `|` anywhere in a delete's WHERE is rejected; the kind-5 delete also has `c.id == bytes.fromhex(<e-tag value>)`",
-        floor=3,
+        floor=1,
     )
     for q in ("pre_save", "post_save", "process_tags"):
         fn = program.func(f"nostr_relay.storage.db:DBStorage.{q}")
@@ -236,7 +236,7 @@ def rule_kv(program, ctx):
         "WriterThread._post_save, kind-5 branch: `_delete_event` sits inside `for id in <scanner>` where the scanner is "
         "INDEXES[\"authors\"].scanner(txn, [event.pubkey], …), under `if id in ids`, ids built from tag[1] of the event's own 'e' tags; a "
         "malformed reference is skipped individually (the id set is not emptied by a handler)",
-        floor=3,
+        floor=1,
     )
     fn = program.func("nostr_relay.storage.kv:WriterThread._post_save")
     branch = None
@@ -303,7 +303,7 @@ def rule_reach(program, ctx):
         "who-may-call: `.delete_event(` (deletes by bare id, no author check) only from the garbage collector, cli purge, FOAF refresh and "
         "set_identified_pubkey; `_delete_event(` only from WriterThread.run/_post_save; EventTable deletes only in the add_event closure, "
         "delete_event and the GC",
-        floor=5,
+        floor=4,
     )
     owners = {
         "delete_event": {"KVGarbageCollector.collect", "purge", "FOAFBuilder.save", "BaseStorage.set_identified_pubkey"},
